@@ -184,6 +184,7 @@ func RunProperty(id string, p *ir.Program, r *report.R) bool {
 		lockPairing(p, r, files)
 		guardedBy(p, r, files)
 		fieldCoverageRule(p, r, files)
+		deferRegression(p, r, files)
 	}
 	return true
 }
